@@ -490,6 +490,31 @@ pub fn run(args: &Args) {
         p.off.pc.close(); p.ans.pc.close();
     });
 
+    // (2c) rtcp-mux / RTCP-socket decisions for MIXED policies and compat modes (audit A1, D1, D2): real
+    // create_offer / set_remote_description / create_answer in Rtp mode, one audio section, no connection needed
+    rt.block_on(async {
+        for mo in [true, false] { for lo in [false, true] { for ma in [true, false] { for la in [false, true] {
+            let mk = |mux: bool, legacy: bool| { let c = Cfg { mode: Mode::Rtp, mix: Mix::Audio, bundle: 0, mux_require: mux, ice: IceOpt::Full, latching: false, legacy, p_offers: true }; PeerConnection::new(rtc_config(&c, true, &Knobs::default())) };
+            let (o, a) = (mk(mo, lo), mk(ma, la));
+            for pc in [&o, &a] { pc.add_transceiver(MediaKind::Audio, rustrtc::TransceiverDirection::SendRecv); }
+            let r: Result<String, String> = async {
+                let offer = o.create_offer().await.map_err(|e| e.to_string())?;
+                o.set_local_description(offer.clone()).map_err(|e| e.to_string())?;
+                a.set_remote_description(offer.clone()).await.map_err(|e| e.to_string())?;
+                let answer = a.create_answer().await.map_err(|e| e.to_string())?;
+                let has = |d: &SessionDescription, k: &str| d.media_sections.iter().any(|m| m.attributes.iter().any(|x| x.key == k)) as u8;
+                Ok(format!("mux={}/{} rtcp={}/{}", has(&offer, "rtcp-mux"), has(&answer, "rtcp-mux"), has(&offer, "rtcp"), has(&answer, "rtcp")))
+            }.await;
+            let out = r.unwrap_or_else(|e| format!("err:{e}"));
+            run.case("muxsdp", &format!("{} {} {} {}", mo as u8, lo as u8, ma as u8, la as u8), &out, mo != ma || lo != la);
+            // oracle: an end that does not multiplex must advertise (= have bound) an RTCP port
+            if out == "mux=1/0 rtcp=0/0" || out.ends_with("rtcp=0/0") && out.starts_with("mux=0/0") {
+                run.fail(&format!("mux:rtp-mixed-policy:{}{}{}{}:no-rtcp-mux-and-no-rtcp-port", mo as u8, lo as u8, ma as u8, la as u8), &format!("muxsdp {} {} {} {}", mo as u8, lo as u8, ma as u8, la as u8), &out);
+            }
+            o.close(); a.close();
+        }}}}
+    });
+
     // (3) pure helpers through hooks
     {
         let ip: std::net::IpAddr = "10.0.0.1".parse().unwrap();
